@@ -58,7 +58,7 @@ def TOEPLITZ(T0, TC, TR, Z):
             temp1 = -save1 / P
             temp2 = -save2/P
         P = P * (1. - (temp1*temp2))
-        if P <= 0:
+        if P == 0:
             raise ValueError("singular matrix")
         A[k] = temp1
         B[k] = temp2
